@@ -443,9 +443,73 @@ def b64_oracle(inp):
     return None
 
 
+# ------------------------------------------------------------------ every shipped serializer, packets -> stream -> packets
+
+def shipped_cases(tier, rng, escalate):
+    """kind 20 of Run/C06.v: the shipped serializers as configured by the C06 driver (line, JSON lines / raw, struct,
+    named-tuple struct, base64 over bytes / json / pickle with and without checksum, pickle, zlib / bz2 over json /
+    pickle / bytes): 1-3 packets, the stream produced by the real generate_chunks, whole / byte-by-byte / single cuts /
+    random cuts, both consumers"""
+    import c06
+    thorough = tier == "thorough" or escalate
+    for c in c06.CONFIGS:
+        if c.family == 7 or c.family not in sc2.HAS_COPY:
+            continue                    # the file-based test formats: kinds 5/6 above; one-shot-only serializers (pickle)
+        for _ in range(6 if thorough else 2):
+            ser = sc2.make_serializer(c.family, c.cfg, c.impl)
+            proto = StreamProtocol(ser)
+            pkts = []
+            for _i in range(rng.choice([1, 2, 2, 3])):
+                frame = c.frame(rng)
+                keep_end = c.family == 0 and bool(c.cfg[2])
+                payload = frame[: -len(c.sep)] if c.sep and frame.endswith(c.sep) and not keep_end else frame
+                try:
+                    p = ser.deserialize(payload)
+                    wire = b"".join(proto.generate_chunks(p))
+                except Exception:
+                    continue
+                if c.limit and len(wire) + 1 >= c.limit:
+                    continue            # only frames safely within the limit (payload + separator < limit)
+                if not wire:
+                    continue            # an empty payload is not transmitted at all (AutoSeparated / line serializers)
+                pkts.append(p)
+            stream = b"".join(b"".join(proto.generate_chunks(p)) for p in pkts)
+            if not stream:
+                continue
+            sent = [sc2.canon_packet(p) for p in pkts]
+            chunkings = [[stream], [stream[i:i + 1] for i in range(len(stream))]]
+            cuts = list(range(1, len(stream)))
+            for cut in (cuts if thorough and len(cuts) <= 80 else rng.sample(cuts, min(len(cuts), 10))):
+                chunkings.append(sc.cuts_to_chunks(stream, [cut]))
+            for _k in range(6 if thorough else 2):
+                chunkings.append(sc.cuts_to_chunks(stream, [rng.randrange(1, max(2, len(stream))) for _ in range(rng.randrange(2, 6))]))
+            for chunks in chunkings:
+                hint = c.hint(rng)
+                yield dict(input=sc2.make_case(c.family, c.cfg, c.impl, stream, chunks, hint) + [sent],
+                           tags=["kind20", "shipped", c.name, f"npk{len(pkts)}"],
+                           nontrivial=bool(len(pkts) >= 2 and len(chunks) >= 2))
+
+
+def shipped_oracle(inp):
+    family, chunks, hint, sent = inp[1], inp[5], inp[6], inp[8]
+    out = sc2.run_impl(inp)
+    for mode, rounds in (("copying", out[2]), ("buffer-filling", out[3])):
+        if not rounds and not (mode == "copying" and family in sc2.HAS_COPY or mode != "copying" and family in sc2.HAS_BUF and hint > 0):
+            continue
+        events = [e for r in rounds for e in r[1]]
+        if any(e[0] != 0 for e in events):
+            return f"error reported on a stream of valid packets ({mode} consumer): {[e[:2] for e in events if e[0] != 0][:1]}"
+        if [e[1] for e in events] != list(sent):
+            return f"received packets differ from sent ({mode} consumer): sent={sent!r} got={[e[1] for e in events]!r}"
+        if mode == "copying" and rounds and rounds[-1][2]:
+            return f"leftover after the last packet: {rounds[-1][2]!r}"
+    return None
+
+
 def cases(tier, rng, escalate):
     yield from ser_cases(tier, rng, escalate)
     yield from b64_cases(tier, rng, escalate)
+    yield from shipped_cases(tier, rng, escalate)
     yield from stapled_cases(tier, rng, escalate)
     yield from recv_cases(tier, rng, escalate)
     yield from generic_cases(tier, rng, escalate)
@@ -630,6 +694,8 @@ def _ser_setup(inp):
 def run_impl(inp):
     if inp[0] == 31:
         return run_b64(inp)
+    if inp[0] == 20:
+        return sc2.run_impl(inp)
     if inp[0] == 30:
         return run_stapled(inp)
     if 4 <= inp[0] <= 8:
@@ -679,6 +745,8 @@ def oracle(inp):
         return stapled_oracle(inp)
     if inp[0] == 31:
         return b64_oracle(inp)
+    if inp[0] == 20:
+        return shipped_oracle(inp)
     kind, cfg, _dec, chunks, impl, sent, valid = inp[:7]
     if not valid:
         return None
@@ -707,7 +775,7 @@ def shrink(inp):
         for i in range(len(data)):
             yield [10, inp[1], inp[2], data[:i] + data[i + 1:], inp[4]]
         return
-    if inp[0] == 31:
+    if inp[0] in (31, 20):
         return
     if inp[0] == 30:
         for inner in shrink(inp[4]):
